@@ -7,8 +7,9 @@ From Coq Require Import NArith.
 Local Open Scope N_scope.
 
 Definition sb_premises (F : sb_facts) : bool :=
-  sb_all_writers_guarded F && sb_safe_funcs_harmless F && sb_callbacks_guarded F && sb_containers_clean F &&
-  sbf_call_guard F && sbf_getfield_checked F && sbf_ref_get_checked F && sbf_frame_inherit F.
+  sbf_var_import_checked F &&
+  (sb_all_writers_guarded F && sb_safe_funcs_harmless F && sb_callbacks_guarded F && sb_containers_clean F &&
+  sbf_call_guard F && sbf_getfield_checked F && sbf_ref_get_checked F && sbf_frame_inherit F).
 
 Lemma sb_assoc_in {V} k (l : list (sb_name * V)) v : sb_assoc k l = Some v -> In (k, v) l.
 Proof.
@@ -145,23 +146,28 @@ Section SbSafety.
     sb_containers_clean F = true /\ sbf_call_guard F = true /\ sbf_getfield_checked F = true /\
     sbf_ref_get_checked F = true /\ sbf_frame_inherit F = true.
   Proof.
-    pose proof Hprem as H. unfold sb_premises in H.
+    pose proof Hprem as H. unfold sb_premises in H. apply andb_true_iff in H. destruct H as [_ H].
     do 7 (apply andb_true_iff in H; destruct H as [H ?]). repeat split; assumption.
   Qed.
+
+  Lemma sb_prem_import : sbf_var_import_checked F = true.
+  Proof. pose proof Hprem as H. unfold sb_premises in H. apply andb_true_iff in H. tauto. Qed.
 
   Lemma sb_ns_clean : sb_type_clean F sb_t_Namespace = true.
   Proof. destruct sb_prem_split as (_ & _ & _ & H & _). apply andb_true_iff in H. tauto. Qed.
   Lemma sb_dict_clean : sb_type_clean F sb_t_Dictionary = true.
   Proof. destruct sb_prem_split as (_ & _ & _ & H & _). apply andb_true_iff in H. tauto. Qed.
 
-  Definition sb_fr_good (fr : sb_frame) : Prop := sbfr_sandboxed fr = true /\ sb_frame_ok F fr = true.
+  (* the frame is sandboxed, no unsandboxed frame lies above it on the frame stack, Self/Locals are containers *)
+  Definition sb_fr_good (fr : sb_frame) : Prop :=
+    sbfr_sandboxed fr = true /\ sbfr_top fr = true /\ sb_frame_ok F fr = true.
 
   Section SbRel.
     Variable ev : sb_frame -> sb_expr -> sb_M sb_val.
     Variable inv : sb_frame -> sb_fun -> sb_val -> list sb_val -> sb_M sb_val.
     Hypothesis Hev : forall fr e, sb_fr_good fr -> sb_safe (ev fr e).
     Hypothesis Hinv : forall fr g self args,
-      sbfr_sandboxed fr = true -> sb_fun_safe F g = true -> sb_safe (inv fr g self args).
+      sbfr_top fr = true -> sb_fun_safe F g = true -> sb_safe (inv fr g self args).
 
     Lemma sb_safe_evals fr es : sb_fr_good fr -> sb_safe (sb_evals ev fr es).
     Proof.
@@ -187,29 +193,41 @@ Section SbSafety.
       destruct stop; [apply sb_safe_ret|exact IHk].
     Qed.
 
-    Lemma sb_safe_var_read fr n : sb_fr_good fr -> sb_safe (sb_var_read F fr n).
+    Lemma sb_safe_find_import fr n imports : sb_fr_good fr -> sb_safe (sb_find_import ev fr n imports).
     Proof.
-      intros [_ G]. unfold sb_frame_ok in G. apply andb_true_iff in G. destruct G as [G1 G2].
+      intros G. induction imports; simpl; [apply sb_safe_ret|].
+      apply sb_safe_bind; [apply Hev; exact G|intros v]. destruct v; try apply sb_safe_fail.
+      apply sb_safe_bind; [apply sb_safe_fields|intros c]. destruct (sb_assoc n c); [apply sb_safe_ret|exact IHimports].
+    Qed.
+
+    Lemma sb_safe_var_read fr n imports : sb_fr_good fr -> sb_safe (sb_var_read F ev fr n imports).
+    Proof.
+      intros G0. pose proof G0 as (Gs0 & _ & G). unfold sb_frame_ok in G. apply andb_true_iff in G. destruct G as [G1 G2].
       unfold sb_var_read. apply sb_safe_bind.
       - destruct (sbfr_locals fr) as [[]|]; try apply sb_safe_ret.
         apply sb_safe_raw_read. apply sb_clean_not_hidden. exact G2.
       - intros [x|]; [apply sb_safe_ret|]. apply sb_safe_bind.
         + destruct (sbfr_self fr); try apply sb_safe_ret.
           apply sb_safe_raw_read. apply sb_clean_not_hidden. exact G1.
-        + intros [x|]; [apply sb_safe_ret|]. apply sb_safe_bind.
-          * apply sb_safe_raw_read. apply sb_clean_not_hidden. apply sb_ns_clean.
-          * intros [x|]; [apply sb_safe_ret|apply sb_safe_fail].
+        + intros [x|]; [apply sb_safe_ret|]. apply sb_safe_bind; [apply sb_safe_find_import; exact G0|].
+          intros [iv|].
+          * destruct iv; try apply sb_safe_fail. rewrite sb_prem_import, Gs0.
+            apply sb_safe_getfield. destruct sb_prem_split as (_ & _ & _ & _ & _ & Hgf & _). exact Hgf.
+          * apply sb_safe_bind.
+            -- apply sb_safe_raw_read. apply sb_clean_not_hidden. apply sb_ns_clean.
+            -- intros [x|]; [apply sb_safe_ret|apply sb_safe_fail].
     Qed.
 
     Lemma sb_safe_getref fr e : sb_fr_good fr -> sb_safe (sb_getref F ev fr false e).
     Proof.
-      intros G. pose proof G as [Gs _].
+      intros G. pose proof G as (Gs & _ & _).
       destruct sb_prem_split as (_ & _ & _ & _ & _ & Hgf & _).
       induction e; simpl; try apply sb_safe_ret.
       - (* Variable *)
         apply sb_safe_bind; [destruct (sbfr_locals fr); [apply sb_safe_fields|apply sb_safe_ret]|intros lc].
         destruct (sb_assoc n lc); destruct (sbfr_locals fr); try apply sb_safe_ret;
           (apply sb_safe_bind; [apply sb_safe_fields|intros sc]; destruct (sb_assoc n sc); [apply sb_safe_ret|];
+           apply sb_safe_bind; [apply sb_safe_find_import; exact G|intros iv]; destruct iv; [apply sb_safe_ret|];
            apply sb_safe_bind; [apply sb_safe_fields|intros gc]; destruct (sb_assoc n gc); apply sb_safe_ret).
       - (* Deref *)
         apply sb_safe_bind; [apply Hev; exact G|intros v]. destruct v; try apply sb_safe_fail. apply sb_safe_ret.
@@ -231,14 +249,14 @@ Section SbSafety.
     Qed.
 
     Lemma sb_sub_frame_good fr self locals :
-      sbfr_sandboxed fr = true ->
+      sbfr_top fr = true ->
       match self with SbVObj ty _ => sb_type_clean F ty = true | _ => True end ->
       match locals with Some (SbVObj ty _) => sb_type_clean F ty = true | _ => True end ->
       sb_fr_good (sb_sub_frame F fr self locals).
     Proof.
       intros Gs H1 H2. destruct sb_prem_split as (_ & _ & _ & _ & _ & _ & _ & Hi).
-      split; simpl.
-      - unfold sb_inherit. rewrite Hi, Gs. reflexivity.
+      assert (sb_inherit F fr = true) as E by (unfold sb_inherit; rewrite Hi, Gs; reflexivity).
+      split; [|split]; simpl; try exact E.
       - unfold sb_frame_ok. simpl. apply andb_true_iff. split.
         + destruct self; try reflexivity. exact H1.
         + destruct locals as [[]|]; try reflexivity. exact H2.
@@ -246,7 +264,7 @@ Section SbSafety.
 
     Lemma sb_step_safe n fr e : sb_fr_good fr -> sb_safe (sb_step F ev inv n fr e).
     Proof.
-      intros G. pose proof G as [Gs Gok].
+      intros G. pose proof G as (Gs & Gt & Gok).
       destruct sb_prem_split as (_ & _ & _ & _ & Hcg & Hgf & Hrg & Hi).
       unfold sb_step. rewrite Gs. simpl andb.
       destruct (sb_guarded F e) eqn:Hg; [apply sb_safe_fail|].
@@ -289,7 +307,7 @@ Section SbSafety.
       - (* Dict *)
         destruct inline; [apply sb_safe_seq; exact G|].
         apply sb_safe_bind_alloc. intros o. apply sb_safe_bind; [|intros; apply sb_safe_ret].
-        apply sb_safe_seq. split; [reflexivity|]. unfold sb_frame_ok in *. simpl.
+        apply sb_safe_seq. split; [reflexivity|]. split; [exact Gt|]. unfold sb_frame_ok in *. simpl.
         apply andb_true_iff in Gok. destruct Gok as [_ G2]. rewrite G2, sb_dict_clean. reflexivity.
       - (* Conditional *)
         apply sb_safe_bind; [apply Hev'|intros]. apply sb_safe_bind; [apply sb_safe_truth|intros t].
@@ -309,7 +327,7 @@ Section SbSafety.
       - (* Namespace *)
         apply sb_safe_bind_alloc. intros o. apply sb_safe_bind_alloc. intros o2.
         apply sb_safe_bind; [|intros; apply sb_safe_ret]. apply Hev.
-        apply sb_sub_frame_good; [exact Gs|apply sb_ns_clean|apply sb_dict_clean].
+        apply sb_sub_frame_good; [exact Gt|apply sb_ns_clean|apply sb_dict_clean].
       - apply sb_safe_bind; [apply Hev'|intros; apply sb_safe_ret].
       - apply sb_safe_ret.
       - (* TryExcept *)
@@ -318,14 +336,14 @@ Section SbSafety.
     Qed.
 
     Lemma sb_safe_each fr g items :
-      sbfr_sandboxed fr = true -> sb_fun_safe F g = true -> sb_safe (sb_each inv fr g items).
+      sbfr_top fr = true -> sb_fun_safe F g = true -> sb_safe (sb_each inv fr g items).
     Proof.
       intros Gs Hs. induction items as [|[k x] r IH]; simpl; [apply sb_safe_ret|].
       apply sb_safe_bind; [apply Hinv; assumption|intros; exact IH].
     Qed.
 
     Lemma sb_invoke_safe fr f self args :
-      sbfr_sandboxed fr = true -> sb_fun_safe F f = true -> sb_safe (sb_invoke F ev inv fr f self args).
+      sbfr_top fr = true -> sb_fun_safe F f = true -> sb_safe (sb_invoke F ev inv fr f self args).
     Proof.
       intros Gs Hs. destruct sb_prem_split as (_ & Hh & Hcb & _ & _ & _ & _ & Hi).
       destruct f as [nm|params body]; unfold sb_invoke.
@@ -359,7 +377,7 @@ Section SbSafety.
   Definition sb_rq_ok (rq : sb_req) : Prop :=
     match rq with
     | SbRqEval fr _ => sb_fr_good fr
-    | SbRqInvoke fr f _ _ => sbfr_sandboxed fr = true /\ sb_fun_safe F f = true
+    | SbRqInvoke fr f _ _ => sbfr_top fr = true /\ sb_fun_safe F f = true
     end.
 
   Lemma sb_run_safe fuel : forall rq, sb_rq_ok rq -> sb_safe (sb_run F fuel rq).
@@ -376,27 +394,27 @@ End SbSafety.
 
 (* ------------------------------------------------------------------ the three theorems *)
 Lemma sb_no_write F fuel fr e s :
-  sb_premises F = true -> sbfr_sandboxed fr = true -> sb_frame_ok F fr = true ->
+  sb_premises F = true -> sbfr_sandboxed fr = true -> sbfr_top fr = true -> sb_frame_ok F fr = true ->
   sb_protected (snd (sb_eval F fuel fr e s)) = sb_protected s.
 Proof.
-  intros Hp Hs Hok. pose proof (sb_run_safe F Hp fuel (SbRqEval fr e) (conj Hs Hok) s) as (A & B & _).
+  intros Hp Hs Ht Hok. pose proof (sb_run_safe F Hp fuel (SbRqEval fr e) (conj Hs (conj Ht Hok)) s) as (A & B & _).
   unfold sb_protected, sb_eval. rewrite A, B. reflexivity.
 Qed.
 
 Lemma sb_calls_safe F fuel fr e s :
-  sb_premises F = true -> sbfr_sandboxed fr = true -> sb_frame_ok F fr = true ->
+  sb_premises F = true -> sbfr_sandboxed fr = true -> sbfr_top fr = true -> sb_frame_ok F fr = true ->
   exists c, sbs_calls (snd (sb_eval F fuel fr e s)) = c ++ sbs_calls s /\ Forall (fun x => snd x = true) c.
 Proof.
-  intros Hp Hs Hok. pose proof (sb_run_safe F Hp fuel (SbRqEval fr e) (conj Hs Hok) s) as (_ & _ & C & _).
+  intros Hp Hs Ht Hok. pose proof (sb_run_safe F Hp fuel (SbRqEval fr e) (conj Hs (conj Ht Hok)) s) as (_ & _ & C & _).
   exact C.
 Qed.
 
 Lemma sb_no_read_hidden F fuel fr e s :
-  sb_premises F = true -> sbfr_sandboxed fr = true -> sb_frame_ok F fr = true ->
+  sb_premises F = true -> sbfr_sandboxed fr = true -> sbfr_top fr = true -> sb_frame_ok F fr = true ->
   sb_no_hidden_global F s = true ->
   sbs_reads (snd (sb_eval F fuel fr e s)) = sbs_reads s.
 Proof.
-  intros Hp Hs Hok Hng. pose proof (sb_run_safe F Hp fuel (SbRqEval fr e) (conj Hs Hok) s) as (_ & _ & _ & (r & R & Q)).
+  intros Hp Hs Ht Hok Hng. pose proof (sb_run_safe F Hp fuel (SbRqEval fr e) (conj Hs (conj Ht Hok)) s) as (_ & _ & _ & (r & R & Q)).
   unfold sb_eval. rewrite R. destruct r as [|x r]; [reflexivity|]. exfalso.
   inv Q. destruct x; simpl in H1; [contradiction|]. destruct H1 as [M D].
   unfold sb_no_hidden_global in Hng. rewrite forallb_forall in Hng. specialize (Hng g (sb_mem_in _ _ M)).
@@ -405,11 +423,11 @@ Qed.
 
 (* without the hypothesis on hidden globals: the only hidden values fetched are globals /v1/variables hides *)
 Lemma sb_reads_only_hidden_globals F fuel fr e s :
-  sb_premises F = true -> sbfr_sandboxed fr = true -> sb_frame_ok F fr = true ->
+  sb_premises F = true -> sbfr_sandboxed fr = true -> sbfr_top fr = true -> sb_frame_ok F fr = true ->
   exists r, sbs_reads (snd (sb_eval F fuel fr e s)) = r ++ sbs_reads s /\
             Forall (fun x => exists g, x = SbRdGlobal g /\ sb_mem g (sbf_hidden_globals F) = true) r.
 Proof.
-  intros Hp Hs Hok. pose proof (sb_run_safe F Hp fuel (SbRqEval fr e) (conj Hs Hok) s) as (_ & _ & _ & (r & R & Q)).
+  intros Hp Hs Ht Hok. pose proof (sb_run_safe F Hp fuel (SbRqEval fr e) (conj Hs (conj Ht Hok)) s) as (_ & _ & _ & (r & R & Q)).
   exists r. split; [exact R|]. eapply Forall_impl; [|exact Q]. intros x Hx. destruct x; simpl in Hx; [contradiction|].
   exists g. tauto.
 Qed.
